@@ -2,6 +2,10 @@ package main
 
 // C20 — shared instances are race-free and isolated: no hidden writes to global state (DESIGN §5 C20).
 
+var c20ParamSliceAllow = []allowSite{
+	{"http.ConcatenateJSON", "first[len(first) - 1]", "append-style byte-slice builder: the result reuses and extends `first` exactly like append(first, ...) would; the argument is consumed by contract and is not a shared instance (no in-module caller)"},
+}
+
 func init() {
 	pkgs := []string{"op", "oidc", "client", "client/rp", "client/rs", "client/profile", "client/tokenexchange", "http", "crypto", "strings"}
 	register(&PropSpec{
@@ -13,12 +17,13 @@ func init() {
 		Level:       "Sound (field-based, flow-insensitive, over-approximating) static check of the isolation clause and of the write discipline that race freedom of the shared instance types relies on. Race freedom in general is not decided.",
 		Note:        "Trusted: go/types. The shared-instance table (types, constructors, lazy initialisers, mutex) is reviewed and frozen in the checker.",
 		Technique:   "static analysis: who-may-write / alias-taint analysis over the typed AST, lock-region and must-call rules",
-		Rules:       []string{"E6.R-global", "E6.R-foreign", "E6.R-getter"},
+		Rules:       []string{"E6.R-global", "E6.R-foreign", "E6.R-getter", "E6.R-param-slice", "E6.R-closure-shared"},
 		Run: func(c *Ctx) {
 			RunGlobalWrites(c, pkgs)
 			RunForeignClient(c, pkgs)
 			RunGetters(c, pkgs)
 			RunFrozen(c)
+			RunSliceAndClosureWrites(c, pkgs, c20ParamSliceAllow)
 		},
 	})
 }
